@@ -277,3 +277,56 @@ pub fn gen_scenario(rng: &mut Rng, small: bool) -> Scenario {
     }
     Scenario { maps: m, entities, edges, provider_of, n_providers, repeats, keys, outside, shape }
 }
+
+/// Class and member names from a TINY alphabet, so that different (owner, name, descriptor) triples share their
+/// concatenation (`ab` + `c` = `a` + `bc`), their hash prefix, their sort neighbourhood: the shapes at which a cache keyed
+/// by a sloppily built key, or a lookup that compares a prefix, confuses two queries. Added after a seeded "cache of
+/// misses keyed by owner+name+descriptor without separator" went unnoticed (all other scenarios give every member key a
+/// unique `_k<n>` suffix). Two namespaces, primitive descriptors, a small layered graph with every class in the set,
+/// members declared by one or two classes biased towards the super types, so that most queries on sub types are
+/// answered through inheritance and many (owner, name) combinations miss everywhere.
+pub fn gen_tiny_scenario(rng: &mut Rng) -> Scenario {
+    const CLASSES: [&str; 12] = ["a", "ab", "abc", "b", "bc", "c", "aa", "aab", "a/b", "a/bc", "ab/c", "abcb"];
+    const MEMBERS: [&str; 10] = ["a", "b", "c", "ab", "bc", "abc", "bb", "cb", "bcb", "cI"];
+    const FDESC: [&str; 3] = ["I", "J", "Z"];
+    const MDESC: [&str; 3] = ["()V", "(I)V", "()I"];
+    let mut names: Vec<&str> = CLASSES.to_vec();
+    rng.shuffle(&mut names);
+    let ne = rng.usize_in(3, 7);
+    let mut m = Maps::new(&["o", "n"]);
+    let mut entities = vec![];
+    for (i, n) in names.iter().take(ne).enumerate() {
+        let target = if rng.chance(1, 6) { n.to_string() } else { format!("T{i}{}", rng.pick(&["", "x", "/y"])) };
+        m.classes.insert(n.to_string(), Class { names: vec![Some(n.to_string()), Some(target)], ..Default::default() });
+        entities.push(Entity { src: n.to_string(), in_set: true, layer: i });
+    }
+    // entity i may list 1-2 of the later entities as super types (acyclic by construction)
+    let mut edges: Vec<(usize, Vec<usize>)> = vec![];
+    for i in 0..ne.saturating_sub(1) {
+        if rng.chance(1, 5) { continue; }
+        let mut sup = vec![rng.usize_in(i + 1, ne - 1)];
+        if rng.chance(1, 3) { let x = rng.usize_in(i + 1, ne - 1); if !sup.contains(&x) { sup.push(x); } }
+        edges.push((i, sup));
+    }
+    let provider_of = vec![0; edges.len()];
+    let mut keys: Vec<KeySpec> = vec![];
+    let n_keys = rng.usize_in(3, 8);
+    for ctr in 0..n_keys {
+        let kind = if rng.chance(2, 3) { Kind::Field } else { Kind::Method };
+        let src_name = rng.pick(&MEMBERS).to_string();
+        let src_desc = match kind { Kind::Field => rng.pick(&FDESC).to_string(), Kind::Method => rng.pick(&MDESC).to_string() };
+        if keys.iter().any(|k: &KeySpec| k.kind == kind && k.src_name == src_name && k.src_desc == src_desc) { continue; }
+        let mut declarers = vec![];
+        for _ in 0..rng.usize_in(1, 2) { let a = rng.below(ne); let b = rng.below(ne); let e = a.max(b); if !declarers.contains(&e) { declarers.push(e); } }
+        for (di, e) in declarers.iter().enumerate() {
+            let names: Row = vec![Some(src_name.clone()), Some(if rng.chance(1, 8) { src_name.clone() } else { format!("r{ctr}_{di}") })];
+            let c: &mut Class = m.classes.get_mut(&entities[*e].src).expect("in-set entity");
+            match kind {
+                Kind::Field => { c.fields.insert((src_name.clone(), src_desc.clone()), Field { names, comment: None }); }
+                Kind::Method => { c.methods.insert((src_name.clone(), src_desc.clone()), Method { names, comment: None, params: BTreeMap::new() }); }
+            }
+        }
+        keys.push(KeySpec { kind, src_name, src_desc, declarers });
+    }
+    Scenario { maps: m, entities, edges, provider_of, n_providers: 1, repeats: vec![], keys, outside: vec!["zz1".into(), "zz/2".into(), "zz3".into(), "z$4".into()], shape: "tiny_alphabet" }
+}
